@@ -1,5 +1,5 @@
 """gen_codec.py — regenerated declarative facts for the codec vertical (C06/C07/C08) beyond the
-elementary rows of Gen/Types.v: STRINGN.ENCODINGS, the encodings inherited by FixedSizeString and
+elementary rows of Gen/Types.v: STRINGN.ENCODINGS, STRINGI.STRING_TYPES, the encodings inherited by FixedSizeString and
 the PCCC string types, FixedSizeString's default length type, and the member lists of the Struct
 instances Revision / ModuleIdentityObject / ListIdentityObject.  Fail closed: the AST view of each
 construct is cross-checked with the imported runtime object."""
@@ -33,6 +33,36 @@ def _stringn_encodings():
         if not isinstance(k, int) or isinstance(k, bool) or not isinstance(v, str):
             raise GenError("STRINGN.ENCODINGS: entry not int -> str")
     return list(lit.items())
+
+
+def _stringi_types():
+    """STRINGI.STRING_TYPES = {X.code: X, ...}: (code, class name) in dict order"""
+    tree = _parse("pycomm3/cip/data_types.py")
+    mod = _import("pycomm3.cip.data_types")
+    node = _class(tree, "STRINGI")
+    names = None
+    for st in node.body:
+        if isinstance(st, ast.Assign) and len(st.targets) == 1 and isinstance(st.targets[0], ast.Name) and st.targets[0].id == "STRING_TYPES":
+            if not isinstance(st.value, ast.Dict):
+                raise GenError("STRINGI.STRING_TYPES: not a dict display")
+            names = []
+            for k, v in zip(st.value.keys, st.value.values):
+                if not (isinstance(k, ast.Attribute) and k.attr == "code" and isinstance(k.value, ast.Name)
+                        and isinstance(v, ast.Name) and v.id == k.value.id):
+                    raise GenError("STRINGI.STRING_TYPES: entry is not `X.code: X`")
+                names.append(v.id)
+    if names is None:
+        raise GenError("STRINGI.STRING_TYPES: not found")
+    rt = mod.STRINGI.STRING_TYPES
+    out = []
+    for n in names:
+        cls = getattr(mod, n, None)
+        if cls is None or not isinstance(cls.code, int) or isinstance(cls.code, bool):
+            raise GenError(f"STRINGI.STRING_TYPES: {n} has no integer code")
+        out.append((cls.code, n))
+    if [(c, t.__name__) for c, t in rt.items()] != list(dict(out).items()) or any(getattr(mod, n) is not rt[c] for c, n in dict(out).items()):
+        raise GenError("STRINGI.STRING_TYPES: AST view differs from runtime")
+    return out
 
 
 def _member_desc(m, where):
@@ -110,6 +140,8 @@ def gen_codec_facts():
     out = [HEADER]
     out.append("(* STRINGN.ENCODINGS *)\nDefinition stringn_encodings : list (Z * list Z) := [" +
                "; ".join(f"({k}, {zs(v)})" for k, v in _stringn_encodings()) + "].\n\n")
+    out.append("(* STRINGI.STRING_TYPES: code -> class name *)\nDefinition stringi_string_types : list (Z * list Z) := [" +
+               "; ".join(f"({c}, {zs(n)})" for c, n in _stringi_types()) + "].\n\n")
     # encodings of derived string classes (inherited class attribute `encoding`)
     fss = ct.FixedSizeString(1)
     for nm, cls in (("fss_encoding", fss), ("pccc_ascii_encoding", pc.PCCC_ASCII), ("pccc_string_encoding", pc.PCCC_STRING)):
